@@ -1539,7 +1539,7 @@ REGISTRY = {
                     "each course exactly the people the array assigns to it, flagged exactly its instructors, count = people + hidden names; "
                     "C14_array: the array shape follows from C01's HardOK.  C14_text: for every accepted input document the TEXT written by --print "
                     "(ListingText.print_stage: model of main.rs's print! and io::format_assignment on the instance as the reader model reads it) "
-                    "is the rendering of that structural listing; C14_text_lines: the lines are recoverable from the text.  The real binary's "
+                    "is the rendering of that structural listing; C14_text_lines / C14_text_recover: when no name contains a line feed the lines of the text are the title followed by that rendering (the structure can be read off stdout).  The real binary's "
                     "stdout is compared byte for byte with the model text inside Coq (CorrCliText.check_text, incl. hidden names and the room "
                     "line for --rooms and --rooms-file with split kinds, empty kinds, non-ASCII kind names); additionally the output file and the "
                     "listing are parsed and checked against the structural model.",
